@@ -21,7 +21,10 @@ RULE = ("scenario = 1 file (in-process, plain store) or 2..3 files (worker proce
         "has an unmatched optional group or a named field; distinct by scenario hash")
 
 PATS = [r'(\w+) (\w+)', r'(\w+)(?: (\w+))?(?: (\w+))?', r'(\S+)', r'(\w+) (\d+)?',
-        r'(\S+) (\S+) (\S+)', r'\S+', r'(?P<first>\w+)\s*(?P<rest>.*)']
+        r'(\S+) (\S+) (\S+)', r'\S+', r'(?P<first>\w+)\s*(?P<rest>.*)',
+        # every group optional: results whose groups are ALL unmatched still carry tag and
+        # sequence id
+        r'[a-z]\w*(?: (\d))?(?: (zz\w+))?', r'\w+(?: (\d+))?$']
 
 
 def gen_words(rng, style, n):
@@ -62,10 +65,13 @@ def gen_scenario(rng, tier, multi):
     for _ in range(rng.choice([1, 2, 3])):
         if rng.random() < 0.25:
             d = {'type': 'seq', 'tag': rng.choice(['q1', 't1']),
-                 'start': {'pats': [rng.choice([r'a\b', r'(w1\d|t1|a)\b', r'(\w+) x'])],
+                 'start': {'pats': [rng.choice([r'a\b', r'(w1\d|t1|a)\b', r'(\w+) x',
+                                                r'(?:w1\d|t1|a)\b(?: (\d))?'])],
                            'store': True},
                  'body': {'pats': [rng.choice(PATS)], 'store': True},
-                 'end': ({'pats': [rng.choice([r'b\b', r'(w2\d|t2|c)\b'])], 'store': True}
+                 'end': ({'pats': [rng.choice([r'b\b', r'(w2\d|t2|c)\b',
+                                               r'(?:w2\d|t2|c|b)\b(?: (\d))?'])],
+                          'store': True}
                          if rng.random() < 0.6 else None)}
         else:
             import re
